@@ -6,7 +6,9 @@ Local Open Scope nat_scope.
 Definition nv_ops (top : nat) : list op :=
   [OInt 9223372036854775809; OFlipAll; OSet top true; OSwap; OSetAll; ORefCopy 0 top; OAnd; OTest top;
    OSet (S top) true; OStr [49; 48; 48; 49]%N 1 18446744073709551615 48 49;
-   OStr [49; 50]%N 0 18446744073709551615 48 49; OStr [49]%N 2 0 48 49; ONot].
+   OStr [49; 50]%N 0 18446744073709551615 48 49; OStr [49]%N 2 0 48 49; ONot;
+   ORefCopySelf top 0; ORefCopySelf 1 1; ORefCopySelf 0 (S top); OOrSelf; OAndSelf;
+   OCStr [49; 49; 0; 50]%N false 48 49; OCStr [49; 0]%N true 48 49; OCStr [49; 0]%N true 0 49; OXorSelf].
 
 Lemma nonvacuous :
   run_m 7 8 (init_m 7 8) (nv_ops 6) = s_run 7 (s_init 7) (nv_ops 6)
@@ -15,6 +17,9 @@ Lemma nonvacuous :
   /\ map (option_map (fun r => (o_count (fst r), o_all (fst r), snd r))) (run_m 65 64 (init_m 65 64) (nv_ops 64))
      = [Some (2, false, []); Some (63, false, []); Some (63, false, []); Some (0, false, []);
         Some (65, true, []); Some (65, true, []); Some (63, false, []); Some (63, false, [true; true; true; false]);
-        None; Some (1, false, []); None; None; Some (64, false, [])]
-  /\ fst (final_state 65 6 (init_m 65 64) (nv_ops 64)) = [18446744073709551614; 1]%N.
+        None; Some (1, false, []); None; None; Some (64, false, []);
+        Some (63, false, []); Some (63, false, []); None; Some (63, false, []); Some (63, false, []);
+        Some (2, false, []); None; Some (1, false, []); Some (0, false, [])]
+  /\ fst (final_state 65 6 (init_m 65 64) (firstn 13 (nv_ops 64))) = [18446744073709551614; 1]%N
+  /\ fst (final_state 65 6 (init_m 65 64) (firstn 21 (nv_ops 64))) = [2; 0]%N.
 Proof. vm_compute. repeat split; reflexivity. Qed.
